@@ -28,7 +28,7 @@ Fixpoint prefixes {A} (l : list A) : list (list A) :=
 
 Definition c02_ok (lops : list lop) (o : cobs) : bool :=
   match o with
-  | CObs i j _ open tables0 probe_ok _ =>
+  | CObs i j _ open tables0 probe_ok _ _ =>
       let tables := map of_ctab tables0 in
       let '(a, infl) := split_at lops (Z.to_nat i) (j <? 0) in
       let acked := lrun [] (firstn a lops) in
@@ -37,7 +37,7 @@ Definition c02_ok (lops : list lop) (o : cobs) : bool :=
   end.
 
 Definition spec_ok (c : case) : bool :=
-  match c with Case steps imgs pts => forallb (c02_ok (lops_of (map of_cstep steps))) (map (obs_of imgs) pts) end.
+  match c with Case steps _ imgs pts => forallb (c02_ok (lops_of (map of_cstep steps))) (map (obs_of imgs) pts) end.
 
 Definition known_class (c : case) : Z :=
   match judge c02_ok c with [] => 0 | x :: _ => snd x end.
